@@ -45,3 +45,21 @@ Theorem C18_storage_roundtrip : forall c v p,
   from_storage_vol c (to_storage_vol c v p) p == v /\ from_storage_mol c (to_storage_mol c v p) p == v.
 Proof. intros. split; [apply storage_vol_inverse | apply storage_mol_inverse]. Qed.
 Print Assumptions C18_storage_roundtrip.
+
+(* ---- the simulation for whole programs (ConfigThm2.v): plates in every transfer form, remove and fill_to on regions, dilute,
+   create_solution with a pure solvent.  Under any two storage configurations every operation of a history is accepted or refused
+   alike (same error class) and returns related values; on related values all observers agree (theorems above, well by well). *)
+Require Import PlateThm Dilute Solve Prog ConfigThm2.
+Theorem C18_programs_respect_configuration : forall cf cf' ops e e',
+  Renv cf cf' e e' -> Forall plain_op ops ->
+  Forall2 (Rres (Forall2 (Rbind cf cf'))) (run cf e ops) (run cf' e' ops).
+Proof. exact run_R. Qed.
+Print Assumptions C18_programs_respect_configuration.
+Theorem C18_plate_transfer : forall cf cf' ps ps' rs pd pd' rd q, RPl cf cf' ps ps' -> RPl cf cf' pd pd' ->
+  Rres (Rpp cf cf') (p_to_p cf ps rs pd rd q) (p_to_p cf' ps' rs pd' rd q).
+Proof. exact p_to_p_R. Qed.
+Print Assumptions C18_plate_transfer.
+Theorem C18_dilute : forall cf cf' c c' solute t solvent, R cf cf' c c' ->
+  Rres (R cf cf') (dilute cf c solute t solvent) (dilute cf' c' solute t solvent).
+Proof. exact dilute_R. Qed.
+Print Assumptions C18_dilute.
